@@ -58,6 +58,24 @@ Definition show_inl (r : inline_res) : string :=
 Definition show_dir (s : string) : string :=
   let pe := split_directive s in
   (if snd pe then "E" else "-") ++ bar (map (fun e => fst (comment_entry e) ++ "#" ++ snd (comment_entry e)) (fst pe)).
+Definition probe5 (o : opts) : list nat := probe o ++ [encv (get o "z")].
+Definition R1 : changes := [("x", VNum 1); ("enable_error_code", VList ["c"])].
+Definition R2 : changes := [("x", VNum 2); ("y", VNum 2); ("disable_error_code", VList ["c"])].
+Definition R3 : changes := [("y", VNum 3)].
+Definition R4 : changes := [("x", VNum 1); ("z", VNum 1)].
+Definition R5 : changes := [("z", VNum 1); ("y", VNum 2)].
+Definition TMODS : list key := [["a"]; ["b"]; ["a"; "b"]; ["c"]; ["a"; "c"; "b"]; ["b"; "b"]].
+Definition run5 (pmo : list (key * changes)) : list nat :=
+  flat_map (fun m => probe5 (model_options dflt nocode nocode [] [] pmo None m)) TMODS.
+Definition keys_of (pmo : list (key * changes)) : list string := map (fun e => join_with "." (fst e)) pmo.
+Definition show_toml (t : list (list key * changes)) : list string * list nat :=
+  match pmo_of_toml t with None => (["<rejected>"], []) | Some pmo => (keys_of pmo, run5 pmo) end.
+Definition show_ini (t : list (list key * changes)) : list string * list nat := (keys_of (pmo_of_ini t), run5 (pmo_of_ini t)).
+Definition spec5 (t : list (list key * changes)) : list nat :=
+  let pmo := flat_sections (map (fun s => (fst s, with_code_defaults (snd s))) t) in
+  flat_map (fun m => [encv (spec_resolve dflt [] [] pmo None m "x"); encv (spec_resolve dflt [] [] pmo None m "y");
+                      b2n (fst (spec_code nocode nocode pmo None m "c")); b2n (snd (spec_code nocode nocode pmo None m "c"));
+                      encv (spec_resolve dflt [] [] pmo None m "z")]) TMODS.
 Definition show_sp (s : string * (string * bool)) : string := fst s ++ " " ++ fst (snd s) ++ " " ++ (if snd (snd s) then "1" else "0").
 """
 
@@ -734,6 +752,110 @@ def values_stage(ctx: vlib.Ctx, tmp: str) -> None:
                           {"kind": "inline_crash", "line": line, "exception": repr(ex)})
             break
 
+
+# ------------------------------------------------------------------ C6: mypy.ini <-> pyproject.toml translation of per-module sections
+
+RAW = {
+    1: {"follow_imports": "silent", "enable_error_code": [CODE]},
+    2: {"follow_imports": "skip", "always_true": ["Y2"], "disable_error_code": [CODE]},
+    3: {"always_true": ["Y3"]},
+    4: {"follow_imports": "silent", "ignore_errors": True},
+    5: {"ignore_errors": True, "always_true": ["Y2"]},
+}
+TMODS = ["a", "b", "a.b", "c", "a.c.b", "b.b"]
+TPOOL = [["a"], ["b"], ["a.b"], ["c"], ["a.*"], ["*.b"], ["a.*.b"], ["a", "b"], ["b", "a"], ["a", "a.b"], ["c", "*.b"], ["a.*", "b"], ["a", "b", "c"]]
+
+
+def observe_file(path: str) -> tuple[list[str], list[int], str]:
+    """(keys of per_module_options in order, observables of clone_for_module for TMODS, messages) after the REAL parse_config_file."""
+    from mypy.options import Options
+    from mypy import config_parser as CP
+    from mypy.errorcodes import error_codes
+    o = Options()
+    err = io.StringIO()
+    CP.parse_config_file(o, lambda: None, path, stdout=err, stderr=err)
+    if o.config_file is None:
+        return ["<rejected>"], [], err.getvalue()
+    code = error_codes[CODE]
+    xs = {"silent": 1, "skip": 2}
+    out: list[int] = []
+    for m in TMODS:
+        c = o.clone_for_module(m)
+        at = c.always_true
+        out += [xs.get(c.follow_imports, 0), int(at[0][1:]) if at else 0, int(code in c.enabled_error_codes),
+                int(code in c.disabled_error_codes), int(bool(c.ignore_errors))]
+    return list(o.per_module_options), out, err.getvalue()
+
+
+def translation_stage(ctx: vlib.Ctx, tmp: str) -> None:
+    rng = vlib.Rng(ctx.seed, "translate")
+    tables_all = [(ms, j) for ms in TPOOL for j in RAW]
+    cases: list[list[tuple[list[str], int]]] = []
+    pairs = list(itertools.permutations(tables_all, 2))
+    if ctx.quick:
+        # every pair in which some module is listed in both tables (the merge path), a sample of the others
+        rep = [p for p in pairs if set(p[0][0]) & set(p[1][0])]
+        oth = [p for p in pairs if not (set(p[0][0]) & set(p[1][0]))]
+        pairs = rng.sample(rep, min(len(rep), 700)) + rng.sample(oth, 300)
+    cases += [list(p) for p in pairs]
+    for _ in range(ctx.n(500, 6000)):
+        cases.append([rng.choice(tables_all) for _ in range(rng.choice([3, 3, 4]))])
+    cq = lambda t: "[" + "; ".join("([" + "; ".join(coq_key(m) for m in ms) + f"], R{j})" for ms, j in t) + "]"   # noqa: E731
+    exprs = []
+    for t in cases:
+        exprs += [f"show_toml {cq(t)}", f"show_ini {cq(t)}", f"spec5 {cq(t)}"]
+    hdr = HEADER.replace("%MODS%", "[]")
+    res = ctx.eval_cases("translate", hdr, exprs, per_file=ctx.n(600, 900))
+    if res is None:
+        return
+    d = tempfile.mkdtemp(dir=tmp)
+    bad = 0
+    n_rep = n_rej = 0
+    for i, t in enumerate(cases):
+        mt, mi, ms = res[3 * i], res[3 * i + 1], nums(res[3 * i + 2])
+        secs = [(",".join(ms_), RAW[j]) for ms_, j in t]
+        toml_path = write_cfg(d, "pyproject.toml", {}, [(ms_ if len(ms_) > 1 else ms_[0], RAW[j]) for ms_, j in t])
+        tk, tv, tmsg = observe_file(toml_path)
+        allm = [m for ms_, _ in t for m in ms_]
+        repeated = len(allm) != len(set(allm))
+        n_rep += repeated
+        n_rej += tk == ["<rejected>"]
+        model_t = (strs(mt), nums(mt.split("],")[-1]) if "<rejected>" not in mt else [])
+        if (tk, tv) != model_t:
+            bad += 1
+            if bad <= 5:
+                ctx.broke("C", "pyproject overrides (destructure_overrides + parse_config_file) vs pmo_of_toml",
+                          f"tables {t}: model keys {model_t[0]} values {model_t[1]}; impl keys {tk} values {tv} {tmsg[-120:]}", {"tables": t})
+        names = [s_ for s_, _ in secs]
+        ini_ok = len(names) == len(set(names))          # configparser refuses two sections with the same name
+        if ini_ok:
+            ini_path = write_cfg(d, "mypy.ini", {}, secs)
+            ik, iv, imsg = observe_file(ini_path)
+            model_i = (strs(mi), nums(mi.split("],")[-1]))
+            if (ik, iv) != model_i:
+                bad += 1
+                if bad <= 5:
+                    ctx.broke("C", "mypy.ini sections (comma lists) vs pmo_of_ini", f"tables {t}: model {model_i}; impl {ik} {iv} {imsg[-120:]}", {"tables": t})
+            # S: the two files say the same thing
+            if not repeated and (ik, iv) != (tk, tv) and sum(v.key.startswith("ini-vs-pyproject:") for v in ctx.violations) < 3:
+                ctx.violation(f"ini-vs-pyproject:{t}", f"the same per-module sections {t} written as mypy.ini and as [[tool.mypy.overrides]] give different "
+                              f"per_module_options / clone_for_module: ini {ik} {iv}; pyproject {tk} {tv}", {"kind": "ini_vs_toml", "tables": t})
+        # S: pyproject against the documented rule (every table that lists the module applies; later wins)
+        if tk != ["<rejected>"] and tv != ms:
+            j = next(k for k, (a, b) in enumerate(zip(tv, ms)) if a != b)
+            unstructured_rep = any("*" in m[:-1] for m in allm if allm.count(m) > 1)
+            key = "dup-pattern-later-section-does-not-win" if unstructured_rep else f"pyproject-overrides:{t}"
+            if key.startswith("pyproject-overrides:") and sum(v.key.startswith("pyproject-overrides:") for v in ctx.violations) >= 3:
+                continue
+            ctx.violation(key, f"[[tool.mypy.overrides]] tables {t}: module {TMODS[j // 5]} field {'xyedz'[j % 5]}: documented rule gives {ms[j]}, "
+                          f"clone_for_module after parse_config_file gives {tv[j]}", {"kind": "toml_vs_doc", "tables": t, "module": TMODS[j // 5]})
+    ctx.add("evaluations", 3 * len(cases))
+    ctx.add("traces_validated_against_impl", 2 * len(cases))
+    ctx.cov["translation_cases"] = len(cases)
+    ctx.cov["translation_cases_with_a_repeated_module"] = n_rep
+    ctx.cov["translation_cases_rejected_as_conflicting"] = n_rej
+    ctx.sample({"tables": cases[0], "pyproject": open(write_cfg(d, "pyproject.toml", {}, [(m if len(m) > 1 else m[0], RAW[j]) for m, j in cases[0]])).read()})
+
 # ------------------------------------------------------------------ S: diagnostics on witness programs
 
 # option -> (config key, value, CLI args, inline comment body, witness source)
@@ -983,6 +1105,19 @@ def findings_stage(ctx: vlib.Ctx, tmp: str) -> None:
                       "the LAST section matching pkg.sub.w says ignore_errors=True (documented: later unstructured section overrides earlier) "
                       "but the error is reported, because per_module_options['pkg.*.w'] keeps its first position in the dict",
                       {"kind": "dup_pattern_e2e", "output": out})
+    # the same per-module sections as mypy.ini and as [[tool.mypy.overrides]] (array table first, single-module table second)
+    outs = []
+    for kind, secs in (("mypy.ini", [("pkg.sub.w,pkg.other", {"disallow_untyped_defs": True}), ("pkg.other", {"ignore_errors": True})]),
+                       ("pyproject.toml", [(["pkg.sub.w", "pkg.other"], {"disallow_untyped_defs": True}), ("pkg.other", {"ignore_errors": True})])):
+        root = os.path.join(tmp, "translate-" + kind)
+        make_tree(root, "def f(x): pass\n")
+        with open(os.path.join(root, "pkg", "other.py"), "w") as f:
+            f.write("def g(x): pass\n")
+        outs.append(run_mypy(root, ["--config-file", write_cfg(root, kind, {}, secs)]))
+    if outs[0] != outs[1] or "pkg/sub/w.py" not in outs[0]:
+        ctx.violation("ini-vs-pyproject-diagnostics", "[mypy-pkg.sub.w,pkg.other] disallow_untyped_defs + [mypy-pkg.other] ignore_errors: mypy.ini and the "
+                      f"equivalent [[tool.mypy.overrides]] tables give different diagnostics:\n{outs[0]}\n-- pyproject --\n{outs[1]}",
+                      {"kind": "ini_vs_toml_e2e", "ini": outs[0], "pyproject": outs[1]})
     root = os.path.join(tmp, "finding4")
     make_tree(root, "x: int = ''\n", inline="ignore-errors, Ignore-Errors")
     out = run_mypy(root, ["--config-file="])
@@ -1044,6 +1179,8 @@ def run(ctx: vlib.Ctx) -> None:
         ctx.log("C4 sources done")
         values_stage(ctx, tmp)
         ctx.log("C5 values / strict / inline done")
+        translation_stage(ctx, tmp)
+        ctx.log("C6 ini <-> pyproject translation done")
         if os.environ.get("C17_SKIP_S") == "1":      # development knob only (mutation experiments); never set by bin/check
             ctx.log("S diagnostics SKIPPED (C17_SKIP_S=1)")
         else:
